@@ -122,6 +122,11 @@ def worker(case):
                     lib.create_definition(name="%s_sdn_unique_%d" % (base, k))
         for i, d in enumerate(nonleaf):
             top.create_child(name="again_%d" % i, reference=d)
+        # ... also below the first level: a cell gains a second instance of a non-leaf cell it already uses
+        for i, d in enumerate(nonleaf):
+            inner = next((x.reference for x in d.children if x.reference is not None and not elab.is_leaf_def(x.reference)), None)
+            if inner is not None:
+                d.create_child(name="again_in_%d" % i, reference=inner)
         res = one_round(n, tag + ":round-2", probs)
         if res is not None:
             return {"key": key, "nontrivial": True, "outcome": "raised", "problems": probs, "transitions": 2}
@@ -149,6 +154,8 @@ def cases(tier):
     # every sharing shape of a hierarchy up to five levels deep (fixed pass-through wiring)
     for desc in design.shape_family(5 if tier == "thorough" else 4):
         out.append((desc, "asc"))
+        if tier == "thorough" or len(desc[1]) <= 3:
+            out.append((desc, "asc", "after-refused-edits"))
         if 2 in desc[1] and (tier == "thorough" or len(desc[1]) <= 3):
             out.append((desc, "desc"))
             out.append((desc, "asc", "second-round"))
@@ -170,6 +177,8 @@ def cases(tier):
             out.append((desc, "asc", "other-policy-in-force"))
         if desc[0] in ("K1-chain2", "K2-shared", "K5-chain3") and (tier == "thorough" or sum(desc[1]) % 11 == 0):
             out.append((desc, "asc", "orphan-instance"))
+        if desc[0] in ("K2-shared", "K8-bus", "K7-shared-both") and (tier == "thorough" or sum(desc[1]) % 11 == 0):
+            out.append((desc, "asc", "after-refused-edits"))
     return out
 
 
